@@ -180,8 +180,8 @@ pub fn run(tier: Tier) -> Outcome {
     sweep(tier, &w, &s0, &mut st);
     // (b)
     let worlds: &[&str] = match tier {
-        Tier::Quick => &["A", "B", "C"],
-        Tier::Thorough => &["A", "B", "C", "D"],
+        Tier::Quick => &["A", "B", "C", "G"],
+        Tier::Thorough => &["A", "B", "C", "D", "G"],
     };
     let depth = match tier {
         Tier::Quick => 3,
